@@ -143,3 +143,42 @@ func TestSFBoundedArmor(t *testing.T) {
 	}
 	t.Logf("%d decodes checked", checked)
 }
+
+// TestSFReplayConcurrentDecoders: witness for common/amp/stateless.* - decoders that run at the same time decode their
+// own documents (they share no package-level scratch state). Bound: 8 decoders x 40 rounds, payloads of 3000 bytes,
+// one-byte reads so that the decoders interleave.
+func TestSFReplayConcurrentDecoders(t *testing.T) {
+	const workers = 8
+	docs := make([]string, workers)
+	want := make([][]byte, workers)
+	for w := 0; w < workers; w++ {
+		p := make([]byte, 3000)
+		for i := range p {
+			p[i] = byte(w*31 + i*7 + i/251)
+		}
+		want[w] = p
+		docs[w] = sfEncode(t, p, len(p))
+	}
+	errs := make(chan string, workers)
+	for w := 0; w < workers; w++ {
+		go func(w int) {
+			for round := 0; round < 40; round++ {
+				got, err := sfDecode(docs[w], 1)
+				if err != nil {
+					errs <- "decoder " + string(rune('0'+w)) + ": " + err.Error()
+					return
+				}
+				if !bytes.Equal(got, want[w]) {
+					errs <- "decoder " + string(rune('0'+w)) + " returned bytes of another decoder's document"
+					return
+				}
+			}
+			errs <- ""
+		}(w)
+	}
+	for w := 0; w < workers; w++ {
+		if e := <-errs; e != "" {
+			t.Error(e)
+		}
+	}
+}
